@@ -43,7 +43,11 @@ def make_revision(rng, fs):
             p = rng.choice(gen.PRIMS)
             d = ("const", p, ctx.fresh("NC"), gen.rand_literal(rng, p))
         else:
-            d = ("iface", ctx.fresh("NI"), None, [("method", ctx.fresh("n"), [], False, None)])
+            # a new, unrelated interface; its method may be called like a method of an existing
+            # interface (names are per interface) with a different parameter list
+            olds = [m[1] for ff in files for dd in ff["decls"] if dd[0] == "iface" for m in dd[3] if m[0] == "method"]
+            mname = rng.choice(olds) if olds and rng.random() < 0.6 else ctx.fresh("n")
+            d = ("iface", ctx.fresh("NI"), None, [("method", mname, gen.gen_params(gen.Ctx(rng), nmax=4, allow_obj_struct=False), False, None)])
         f["decls"].insert(rng.randint(0, len(f["decls"])), d)
     return B, name, [m for m in new_members]
 
